@@ -6,7 +6,9 @@ package main
 import (
 	"bytes"
 	"fmt"
+	"github.com/ossrs/go-oryx-lib/rtmp"
 	"strings"
+	"sync"
 	"time"
 
 	"github.com/ossrs/go-oryx-lib/amf0"
@@ -325,6 +327,184 @@ func c05(c *h.Ctx) {
 		for _, bs := range cases {
 			d := c05Decodable(c, "malformed", bs, "", 0)
 			c.Case("malformed/"+d.class, h.Hex(bs), true)
+		}
+	}
+
+	// 4b. deep nesting, decode history, independent decoders.
+	// (i) "arbitrary nesting": chains of containers far deeper than anything the generators above produce;
+	// (ii) whatever was decoded before — values that decode, values that are cut off deep inside — a value decodes as it
+	// would in a fresh process (a canary value is decoded again after every batch);
+	// (iii) decoders running side by side on different goroutines do not know of each other.
+	{
+		chain := func(depth int, kind byte) []byte {
+			var w []byte
+			for i := 0; i < depth; i++ {
+				switch kind {
+				case 8:
+					w = append(w, 8, 0, 0, 0, 1, 0, 1, 'a')
+				default:
+					w = append(w, 3, 0, 1, 'a')
+				}
+			}
+			w = append(w, 0, 0x40, 0x09, 0x21, 0xfb, 0x54, 0x44, 0x2d, 0x18)
+			for i := 0; i < depth; i++ {
+				w = append(w, 0, 0, 9)
+			}
+			return w
+		}
+		for _, depth := range []int{64, 127, 128, 129, 200, 255, 256, 257, 1000, 5000} {
+			for _, kind := range []byte{3, 8} {
+				w := chain(depth, kind)
+				a, cl := libDecodeOnce(w)
+				in := fmt.Sprintf("%d containers (marker %d) nested in each other around one number", depth, kind)
+				if c.Hold(cl == "ok", "decode_encode.deep_nesting", in, cl, "ok") {
+					out, mcl := libMarshal(a)
+					c.Hold(mcl == "ok" && bytes.Equal(out, w) && a.Size() == len(w), "decode_encode.deep_nesting", in, fmt.Sprintf("%s size %d, %d bytes", mcl, a.Size(), len(out)), fmt.Sprintf("ok size %d", len(w)))
+				}
+				c.Case("deep/"+amfBucketSize(depth), in, true)
+			}
+		}
+		canary := h.UnHex("0300036170700200046c6976650003617267" + "0a00000002000178003ff0000000000000000179" + "08000000010001610101000009" + "000009")
+		canaryOK := func(when string) {
+			a, cl := libDecodeOnce(canary)
+			got := cl
+			if cl == "ok" {
+				got = fmt.Sprintf("ok %s size %d", amfStr(a), a.Size())
+			}
+			c.Hold(cl == "ok" && a.Size() == len(canary), "decode_encode.independent_of_history", "a small object decoded "+when, got, fmt.Sprintf("ok … size %d", len(canary)))
+		}
+		canaryOK("first")
+		deep := chain(3000, 3)
+		for i := 0; i < 400; i++ {
+			switch i % 4 {
+			case 0:
+				libDecodeOnce(deep)
+			case 1:
+				libDecodeOnce(deep[:len(deep)-1-r.Intn(len(deep)/2)]) // cut off deep inside: the error unwinds 3000 levels
+			case 2:
+				libDecodeOnce(chain(3000+i, 8))
+			default:
+				libDecodeOnce(append([]byte{3, 0, 1, 'a', 0xff}, deep...)) // an unsupported marker under a container
+			}
+			if i%50 == 49 {
+				canaryOK(fmt.Sprintf("after %d decodes of deeply nested values, a quarter of them cut off deep inside, a quarter with a bad marker", i+1))
+			}
+		}
+		c.Case("history/deep", "400", true)
+		// concurrent independent decoders
+		{
+			var wg sync.WaitGroup
+			bad := make([]string, 8)
+			mid := chain(100, 3)
+			for g := 0; g < 8; g++ {
+				wg.Add(1)
+				go func(g int) {
+					defer wg.Done()
+					for i := 0; i < 60; i++ {
+						for _, w := range [][]byte{mid, canary} {
+							a, cl := libDecodeOnce(w)
+							if cl != "ok" || a.Size() != len(w) {
+								bad[g] = fmt.Sprintf("goroutine %d, decode %d: %s", g, i, cl)
+								return
+							}
+						}
+					}
+				}(g)
+			}
+			wg.Wait()
+			for _, b := range bad {
+				if b != "" {
+					c.Hold(false, "decode_encode.independent_decoders", "8 goroutines each decoding its own 100-deep object and a small object 60 times", b, "ok")
+					break
+				}
+			}
+			c.Case("history/concurrent", "8x60", true)
+		}
+	}
+
+	// 4c. the callers that advance by Size(): RTMP command packets decode their AMF0 fields one after the other, each
+	// time stepping over what the previous field's Size() reports. Payloads with values of every size class are decoded
+	// into ONE long-lived packet of each kind as well as into fresh ones: Size() is the payload's length and the packet
+	// marshals back to the payload.
+	{
+		type mk struct {
+			name  string
+			fresh func() rtmp.Packet
+		}
+		kinds := []mk{{"call", func() rtmp.Packet { return rtmp.NewCallPacket() }}, {"connect", func() rtmp.Packet { return rtmp.NewConnectAppPacket() }},
+			{"connectRes", func() rtmp.Packet { return rtmp.NewConnectAppResPacket(1) }}, {"createStreamRes", func() rtmp.Packet { return rtmp.NewCreateStreamResPacket(2) }},
+			{"publish", func() rtmp.Packet { return rtmp.NewPublishPacket() }}, {"play", func() rtmp.Packet { return rtmp.NewPlayPacket() }}}
+		vals := func(i int) amf0.Amf0 {
+			switch i % 6 {
+			case 0:
+				return amf0.NewString(strings.Repeat("s", r.Pick(0, 1, 30, 300)))
+			case 1:
+				return amf0.NewNumber(float64(i))
+			case 2:
+				o := amf0.NewObject()
+				for k := r.Intn(4); k >= 0; k-- {
+					o.Set(fmt.Sprintf("k%d", k), amf0.NewString(strings.Repeat("v", r.Intn(40))))
+				}
+				return o
+			case 3:
+				return amf0.NewNull()
+			case 4:
+				e := amf0.NewEcmaArray()
+				e.Set("x", amf0.NewNumber(1)).Set("y", amf0.NewBoolean(true))
+				return e
+			}
+			return amf0.NewBoolean(i%4 == 1)
+		}
+		for _, k := range kinds {
+			reused := k.fresh()
+			for i := 0; i < c.N(24, 300); i++ {
+				src := k.fresh()
+				switch x := src.(type) {
+				case *rtmp.CallPacket:
+					x.CommandName, x.TransactionID = amf0.String(strings.Repeat("n", 1+r.Intn(9))), amf0.Number(i)
+					x.CommandObject = vals(i + 3)
+					if i%3 != 0 {
+						x.Args = vals(i)
+					}
+				case *rtmp.ConnectAppPacket:
+					x.CommandObject.Set("app", amf0.NewString(strings.Repeat("a", r.Intn(50)))).Set("n", vals(i))
+					if i%2 == 0 {
+						x.Args = amf0.NewObject()
+						x.Args.Set("opt", vals(i+1))
+					}
+				case *rtmp.ConnectAppResPacket:
+					x.CommandObject.Set("fmsVer", amf0.NewString(strings.Repeat("f", r.Intn(20))))
+					if i%2 == 1 {
+						x.Args = amf0.NewObject()
+						x.Args.Set("code", amf0.NewString("NetConnection.Connect.Success")).Set("v", vals(i))
+					}
+				case *rtmp.CreateStreamResPacket:
+					x.StreamID = amf0.Number(i)
+				case *rtmp.PublishPacket:
+					x.StreamName, x.StreamType = amf0.String(strings.Repeat("p", r.Intn(60))), amf0.String([]string{"live", "record", ""}[i%3])
+				case *rtmp.PlayPacket:
+					x.StreamName = amf0.String(strings.Repeat("q", r.Intn(60)))
+				}
+				payload, err := src.MarshalBinary()
+				if err != nil {
+					continue
+				}
+				for pass, dst := range []rtmp.Packet{k.fresh(), reused} {
+					in := fmt.Sprintf("rtmp %s payload %s decoded into %s", k.name, h.Trunc(h.Hex(payload), 300), []string{"a fresh packet", "a packet that earlier payloads were decoded into"}[pass])
+					res := h.Safe(func() string {
+						if err := dst.UnmarshalBinary(append([]byte(nil), payload...)); err != nil {
+							return "err"
+						}
+						out, err := dst.MarshalBinary()
+						if err != nil {
+							return "marshal err"
+						}
+						return fmt.Sprintf("ok size %d %s", dst.Size(), h.Hex(out))
+					})
+					c.Hold(res == fmt.Sprintf("ok size %d %s", len(payload), h.Hex(payload)), "size_consumed.packet_fields", in, h.Trunc(res, 400), fmt.Sprintf("ok size %d and the same bytes", len(payload)))
+				}
+				c.Case("packets/"+k.name, h.Hex(payload), true)
+			}
 		}
 	}
 
